@@ -1,8 +1,15 @@
-HOOK_COMMITS = []
+import subprocess
+HOOK_COMMITS = subprocess.run(['git','-C','/repo','log','--format=%H %s','--grep=verif hook'],capture_output=True,text=True).stdout.strip().split('\n')
 CLAIMED = {
  'C06': dict(
    text='Function contracts on the real packet parser and TOC helpers are enforced by CBMC for every byte string of any length (loop contracts, no unwinding bound); acceptance-iff-RFC is a bounded stand-in.',
    note='Trusted: CBMC/DFCC/MiniSat, machine model LP64. Bounded groups are labelled class B in the evidence and not counted as proved.'),
+ 'C18': dict(
+   text='silk_NLSF_stabilize / silk_NLSF_decode with the real codebook tables, silk_gains_dequant, silk_gains_quant+dequant agreement and silk_decode_pitch are proved for every index value the bitstream can carry (all loops constant-bounded by the codec order / sub-frame count, or under a loop contract).',
+   note='Filter stability (silk_NLSF2A / silk_LPC_inverse_pred_gain) is not covered. Trusted: CBMC/DFCC/CaDiCaL, LP64.'),
+ 'C20': dict(
+   text='Exact transition function of decide_dtx_mode enforced as a contract; the 200 ms / 400 ms bounds and the in-DTX predicate follow from an inductive invariant over a ghost run length, so they hold for every call history.',
+   note='Emission inside opus_encode_native (that the 1-byte packet is produced exactly when the automaton says so), the SILK noSpeechCounter path and decoder-side CNG are not covered.'),
 }
 _NR = 'not reached yet in this build-out (planned in DESIGN.md); no check is registered so nothing is claimed'
-NOT_REACHED = {p: _NR for p in ['C01','C05','C07','C08','C09','C10','C11','C12','C13','C16','C17','C18','C19','C20']}
+NOT_REACHED = {p: _NR for p in ['C01','C05','C07','C08','C09','C10','C11','C12','C13','C16','C17','C19']}
